@@ -8,7 +8,7 @@
    of the correspondence check.  "The caller's object is never modified" cannot be
    stated about a functional model; it is checked on the implementation only. *)
 From Coq Require Import String.
-From HS Require Import Base.Prelude Gen.JsonData Model.Value Model.Json Proofs.JsonP.
+From HS Require Import Base.Prelude Gen.JsonData Model.Value Model.Json Proofs.JsonP Proofs.JsonGridP Proofs.JsonReadP.
 Open Scope N_scope.
 
 (* both Remove spellings, under either version *)
@@ -62,3 +62,18 @@ Proof. exact rows_null_is_empty. Qed.
 Theorem C05_rows_missing : forall f m, assoc (s_ "rows") m = None ->
   jparse_grid (S f) (m ++ cons (s_ "rows", JArr nil) nil) = jparse_grid (S f) m.
 Proof. exact rows_missing_is_empty. Qed.
+
+(* WHOLE OBJECTS: a grid object {meta, cols, rows} - meta with a string "ver" member anywhere among its members, column
+   objects with a string "name" member anywhere, row objects with ANY members (a row may leave columns out), rows possibly
+   missing or null - parses to the grid it denotes: the version, the metadata tags in order with the values their members
+   denote, the columns in order, the rows.  "Denotes" for a member is: the scalar / nested reader returns that value (the
+   per-spelling theorems above and C02_values give it for every spelling and every nesting). *)
+Theorem C05_whole_object : forall g ver p3 meta_j meta cs cols rows_j rows,
+  ver_any ver p3 -> assoc VER meta_j = Some (JStr ver) -> denotes_items g p3 (remove_key VER meta_j) meta ->
+  Forall2 (denotes_col g p3) cs cols ->
+  (exists rs, rows_j = Some (JArr rs) /\ Forall2 (denotes_row g p3) rs rows) \/ ((rows_j = None \/ rows_j = Some JNull) /\ rows = nil) ->
+  jparse_grid (S g) (cons (s_ "meta", JObj meta_j) (cons (s_ "cols", JArr cs)
+                     match rows_j with Some r => cons (s_ "rows", r) nil | None => nil end))
+  = Ok (VGrid ver (dict_of meta) (dict_of cols) rows).
+Proof. exact json_object_denotes. Qed.
+Print Assumptions C05_whole_object.
